@@ -53,6 +53,8 @@ THEOREMS = [
     dict(name="monitored:tsol_agree", strength="monitored", clause="solidification times agree to O(dt)"),
     dict(name="monitored:thin_limit", strength="monitored",
          clause="1D approaches 0D as the vial becomes thermally thin: |T[0]-mean| <= Bi*|T_sh-mean| and cooling curve"),
+    dict(name="Snow.C15.nuc0D_eq_direct_hyps", strength="witness",
+         clause="the constant relations assumed by nuc0D_eq_direct hold between Flake.deriveConsts(default) and the default SnowIn"),
     dict(name="Snow.C15.nonvacuous", strength="nonvacuity", clause="hypotheses satisfiable on concrete cases"),
 ]
 TRUSTED = [
@@ -62,6 +64,8 @@ TRUSTED = [
     "Snowing0D/1D.lean (tied by C08/C11/C13), Flake.lean (tied by C01/C03)",
 ]
 ASSUMPTIONS = [
+    "satisfiability of 'the run completed' (1D/2D) is not witnessed in Lean; it rests on the differential runs, as for "
+    "C08/C11/C13",
     "thin-vial limit |T[0]-mean| <= C*Bi and O(dt) agreement of solidification times are NOT theorems: they are "
     "evaluated on paired real runs (monitored clauses thin_limit, tsol_agree)",
     "2D vs 1D agreement of whole trajectories (different dt) is evaluated on paired runs with a 0.25 K tolerance in the "
